@@ -7,18 +7,13 @@ from core.wire import atom, line, parse_reply, Atom
 ID = "C43"
 LEAN_TARGETS = ["TornadoModel.C43.Props"]
 _T = "TornadoModel.C43."
-THEOREMS_PLANNED = [_T + n for n in [
-    "requestLine_iff", "requestLine_error_kind", "requestLine_spec_agrees",
-    "statusLine_iff", "statusLine_error_kind",
-    "parseCookie_total", "splitHostPort_total", "splitHostPort_spec", "splitHostPortOld_refuted",
+THEOREMS = [_T + n for n in [
+    "requestLine_iff", "requestLine_error_kind", "statusLine_iff", "statusLine_error_kind",
     "parseHeader_total_partial", "parseHeader_total_refuted",
-    "emailUnquote_quote", "param_roundtrip",
-    "re_unescape_escape", "re_unescape_error_only_alnum",
-    "valid_ip_spec", "valid_ip_rejects", "valid_ip_ascii",
-    "url_concat_none", "url_concat_preserves", "parseQsl_urlencode_ascii",
-    "civil_roundtrip", "timestamp_roundtrip",
+    "splitHostPort_total", "splitHostPortOld_raises_iff",
+    "re_unescape_escape",
+    "valid_ip_spec", "valid_ip_rejects", "valid_ip_noname", "valid_ip_ascii",
 ]]
-THEOREMS = [_T + "re_unescape_escape"]
 TRUSTED = [
     "CPython `re` on the five small patterns involved (_ABNF.request_line/status_line, _netloc_re with Unicode \\d, "
     "_unquote_sub, _re_unescape_pattern, rfc2231_continuation) — written out by hand in C43/Model.lean",
